@@ -420,6 +420,7 @@ fn hostile(thorough: bool) -> BoxedStrategy<Hostile> {
             10 => base,
             2 => (0u8..3).prop_map(|variant| Hostile::TcpNeverTerminated { variant }),
             1 => Just(Hostile::HttpNeverTerminated),
+            1 => (14u8..=20).prop_map(|n| Hostile::TcpUnterminatedBurst { n }),
         ]
         .boxed()
     } else {
